@@ -155,6 +155,15 @@ def specs_family_a(tier, rng):
     return out
 
 
+def specs_family_rand(tier, rng):
+    out = []
+    for G in F.rand_family(C.scale(1500 if tier == 'quick' else 12000), rng):
+        ins = [F.to_text(w) for w in F.enriched_inputs(G, 3, extra_len=3, rng=rng, alphabet=('X', 'Y', 'Z'))]
+        out.append({'family': 'F_rand', 'gtext': F.grammar_text(G, term_defs=F.TERM3), 'rules': F.rules_json(G),
+                    'terms': {'X': 'x', 'Y': 'y', 'Z': 'z'}, 'ignore': [], 'inputs': ins, 'modes': MODES})
+    return out
+
+
 def random_overlap_grammar(rng):
     names = rng.sample(sorted(TERM_CATALOGUE), rng.choice([2, 3, 3, 4]))
     syms = ['s', 'a'] + names
@@ -303,7 +312,7 @@ def body(tier, seed, replay):
         xearley_mc.run(ev, tier)
 
         # ---- code -> spec ------------------------------------------------------------------------
-        specs = specs_family_a(tier, rng) + specs_family_b(tier, rng)
+        specs = specs_family_a(tier, rng) + specs_family_rand(tier, rng) + specs_family_b(tier, rng)
         cases = C.pmap(observe_case, specs)
         ninp = 0
         for c in cases:
@@ -321,6 +330,7 @@ def body(tier, seed, replay):
         ev.cov['traces_validated_against_impl'] += ninp
         ev.cov['families']['F_bnf(3,3)'] = {'grammars': sum(1 for c in cases if c['family'] == 'F_bnf(3,3)'), 'exhaustive': True}
         ev.cov['families']['F_bnf(3,3)+ignore'] = {'grammars': sum(1 for c in cases if c['family'] == 'F_bnf(3,3)+ignore')}
+        ev.cov['families']['F_rand'] = {'grammars': sum(1 for c in cases if c['family'] == 'F_rand')}
         ev.cov['families']['F_overlap'] = {'grammars': sum(1 for c in cases if c['family'] == 'F_overlap')}
         for c in cases[:2] + cases[-2:]:
             if c['texts']:
